@@ -154,6 +154,40 @@ def main(argv):
             key = "%s-timeout-extended-by-strays" % mode if (mode == "sync" and k > 0 and exp == "timeout" and got == "deliver") else "%s-outcome-%s-expected-%s" % (mode, got, exp)
             c.violation("%s/%s get, %d strays, reply at %s: outcome %s, expected %s" % (ver, mode, k, ra, got, exp),
                         {"scenario": build(k, ra, ver, mode), "wall_s": out["wall"], "outcome": got}, key=key)
+    # ---- very many wake-ups inside one call: 1500 non-matching datagrams arriving one by one (about 0.6 s) neither end the call
+    # early nor change how it ends: the reply behind them is delivered, silence still ends in TimeoutError at the timeout
+    T2 = 4.0
+    vb = ber.varbind(ber.enc_oid([1, 3, 6, 1, 2, 1, 1, 3, 0]), ber.enc_value("tt", 4242))
+    many = []
+    for mode in ("sync", "async"):
+        for tail in ("reply", "silence"):
+            reps = [{"vbs": vb.hex(), "rid": "same+%d" % (1 + i % 7), "delay": -0.0003} for i in range(3000 if thorough else 1500)]
+            if tail == "reply":
+                reps.append({"vbs": vb.hex(), "delay": -0.02})
+            many.append({"version": "v2c", "mode": mode, "timeout": T2, "watchdog": 30.0, "_tail": tail,
+                         "steps": [{"op": "get", "args": ["1.3.6.1.2.1.1.3.0"], "replies": [reps]}]})
+    resm, logm = vf.run_api_worker("C18", {"scenarios": [{k: v for k, v in sc.items() if not k.startswith("_")} for sc in many], "parallel": 2}, timeout=600)
+    if resm is None:
+        c.violation("the process running a session died or hung while one call skipped %d datagrams: %s" % (len(many[0]["steps"][0]["replies"][0]), logm.strip()[-200:]),
+                    {"worker_log": logm[-1000:]}, key="many-wakeups-process")
+    else:
+        for sc, rec in zip(many, resm["records"]):
+            if "driver_error" in rec:
+                c.errors.append("API driver error: " + rec["driver_error"])
+                continue
+            out = rec["steps"][0]
+            n += 1
+            c.count(("many-wakeups", sc["mode"], sc["_tail"]), True)
+            got = "deliver" if out["kind"] == "RET" else out.get("exc")
+            nst = len(sc["steps"][0]["replies"][0])
+            if sc["_tail"] == "reply" and got != "deliver":
+                c.violation("v2c/%s get (timeout %.1fs): after %d non-matching datagrams arriving one by one the matching reply (well inside the timeout) was not "
+                            "delivered: %s after %.2fs" % (sc["mode"], T2, nst - 1, got, out["wall"]), {"mode": sc["mode"], "strays": nst - 1, "outcome": got, "wall_s": out["wall"]},
+                            key="%s-many-wakeups-reply-lost" % sc["mode"])
+            elif sc["_tail"] == "silence" and (got != "TimeoutError" or out["wall"] > T2 + 0.5 or out["wall"] < 0.8 * T2):
+                c.violation("v2c/%s get (timeout %.1fs): %d non-matching datagrams arriving one by one, then silence: %s after %.2fs (expected TimeoutError at the timeout)"
+                            % (sc["mode"], T2, nst, got, out["wall"]), {"mode": sc["mode"], "strays": nst, "outcome": got, "wall_s": out["wall"]},
+                            key="%s-many-wakeups-%s" % (sc["mode"], "early" if out["wall"] < 0.8 * T2 else "late" if got == "TimeoutError" else "exception"))
     c.assumptions += ["wall-clock measurement on a loaded 16-core sandbox: slack %.2fs, suspected violations re-run twice" % SLACK,
                       "the logical-clock model cannot exhibit scheduler latency, timer granularity or GIL hand-over (partial)"]
     return c.finish(
